@@ -767,3 +767,11 @@ mut("C12", "r9-session-expired-inverted", "api/authentication.go",
     "\treturn time.Now().After(sess.validUntil)", "\treturn sess.validUntil.After(time.Now())", "C12-R9|api.(*session).Expired")
 mut("C19", "r2-sort-oldest-first", "updater/resource.go",
     "\treturn res.Versions[i].semVer.GreaterThan(res.Versions[j].semVer)", "\treturn res.Versions[i].semVer.LessThan(res.Versions[j].semVer)", "C19-R2|updater.(*Resource).Less")
+
+# ---- A12 narrowing conversions -----------------------------------------------------------
+mut("C11", "r9-limit-parsed-64bit", "database/query/parser.go",
+    "limit, err := strconv.ParseUint(limitSnippet.text, 10, 31)", "limit, err := strconv.ParseUint(limitSnippet.text, 10, 64)", "C11-R9|database/query.ParseQuery / uint64 -> int")
+mut("C16", "r10-blocksize-narrowed-untested", "container/container.go",
+    "\tif blockSize > uint64(c.Length()) {\n\t\treturn nil, errors.New(\"container: not enough data to return\")\n\t}\n", "", "C16-R10|container.(*Container).GetNextBlock / uint64 -> int")
+mut("C10", "r5-unpack16-narrowed-untested", "formats/varint/varint.go",
+    "\tif n > 65535 {\n\t\treturn 0, 0, errors.New(\"varint: encoded integer greater than 65535 (uint16)\")\n\t}\n", "", "C10-R5|formats/varint.Unpack16 / uint64 -> uint16")
